@@ -67,6 +67,7 @@ type c08ctx struct {
 	// valid frames of the victim connections (victim.go)
 	victims [][]byte
 	nvict   int
+	live    *liveState
 }
 
 // toCoq: which cases are also evaluated by the Coq model (the finder runs on ALL cases).  Quick tier: every
@@ -162,7 +163,17 @@ func (c *c08ctx) victim(in []byte, kind, cls, outcome string, rep map[string]int
 		pre = "valid-input"
 	}
 	c.run.Count(c.cd.Name+"|victim|"+fmt.Sprint(c.nvict), kind != "valid", c.cd.Name+":victim-interleaving:outcome="+outcome)
-	for _, f := range victimRound(c.cd, in, vb, vc) {
+	var fs []victimFinding
+	round := func() { fs = victimRound(c.cd, in, vb, vc) }
+	if done, _ := within(liveCap, round); !done {
+		if d2, _ := within(liveCap, round); !d2 {
+			c.run.Fail(c.cd.Name+":decode-hangs-after-hostile-input", fmt.Sprintf("%s: after the input [kind %s] the decode / forward of valid frames of two other connections did not complete within %v (tried twice)", c.cd.Name, kind, liveCap), rep)
+		}
+	}
+	if c.cd.Name == "dubbo" {
+		c.dubboLiveness(in, kind, cls, rep)
+	}
+	for _, f := range fs {
 		rp := map[string]interface{}{"victim_B_hex": Hex(clip(vb, 512)), "victim_C_hex": Hex(clip(vc, 512)),
 			"schedule": "A: Decode(input) in its stream context; B: Decode(victim_B); A: stream context released; C: Decode(victim_C); Encode(B), Encode(C) compared with what B and C sent"}
 		for k, v := range rep {
@@ -304,6 +315,7 @@ func c08Codec(run *Run, cd *codecDef) {
 
 func c08(args []string) int {
 	run := NewRun("C08", args)
+	dubboOdd = true
 	run.Sum.Rule = "per codec (bolt, boltv2, dubbo, dubbo-thrift, tars): structured valid frames (field values over their width, lengths from {0..5,7,8,254..257,65534,65535,65536+,random}, 0..40 header pairs) and for each: every length field set to 0,1,2,3,truth-1,truth+1,half-range,max; every byte of the fixed header replaced; truncation at every offset (sampled above 160 bytes); trailing garbage; codec-specific block corruptions (dangling bytes, 0xFFFFFFFF string length, over-long string); plus random byte strings biased to the codec's magic. Each input goes to the REAL Decode under recover()+3s watchdog twice (different contents of the read buffer's spare capacity). After every distinct input the victim interleaving (victim.go): A decodes the input in its own stream context, B decodes a valid frame, A's context is released, C decodes a valid frame, B and C are encoded and compared byte for byte with what they sent; reference counts of the pooled frame copies read after Decode and after the release. Non-trivial = not the unmodified valid frame; distinct by (codec, input hash, outcome)."
 	for _, cd := range codecDefs() {
 		c08Codec(run, cd)
